@@ -12,9 +12,9 @@ EXTENDS VerifTrace, FiniteSets
 
 \* Only the constant-level part of StreamCli is used; its variables are bound to dummies.
 SC == INSTANCE StreamCli WITH
-        KindSet <- {"post"}, ShapeSet <- {}, SchemeSet <- {"dec"}, MSet <- {1}, MRSet <- {1}, MaxCuts <- 0, ClassSet <- {}, AnswerSet <- {"ok"},
+        KindSet <- {"post"}, ShapeSet <- {}, SchemeSet <- {"dec"}, MSet <- {1}, MRSet <- {1}, MaxCuts <- 0, ClassSet <- {}, AnswerSet <- {"ok"}, TailSet <- {"good"},
         FixScanner <- FALSE, FixCursor <- FALSE, Fix5xx <- FALSE,
-        cfg <- [kind |-> "post", ids |-> "all", prime |-> "none", scheme |-> "dec", M |-> 1, mr |-> 1],
+        cfg <- [kind |-> "post", ids |-> "all", prime |-> "none", scheme |-> "dec", M |-> 1, mr |-> 1, tail |-> "good"],
         pc <- "done", from <- 0, primed <- FALSE, wire <- 0, ncut <- 0, bodies <- <<>>, recon <- <<>>,
         prev <- -1, rwp <- 0, last <- -1, att <- 0, outs <- <<>>, rd <- <<>>, failed <- FALSE, outcome <- "resp"
 
@@ -72,6 +72,7 @@ MNext == /\ l <= NLines /\ l' = l + 1
               /\ Check(l, "ResumeCursor", SC!ResumeCursor(o))
               /\ Check(l, "RealResponseWithinBudget", SC!RealResponseWithinBudget(o))
               /\ Check(l, "CleanFailure", SC!CleanFailure(o) /\ Prompt(e))
+              /\ Check(l, "BoundedRetries", SC!BoundedRetries(o))
               /\ Check(l, "drift", Strict(e))
 MSpec == MInit /\ [][MNext]_l
 MMark == MarkAt(l)
